@@ -171,6 +171,8 @@ inductive Act where
   | hookReturn
   | hookPanic
   | enterReader                     -- hook loops finished: enter the `select!`
+  | earlyResponse (id : Nat)        -- only if the hook loops do NOT precede the reader: the reader answers
+                                    -- a request between two connect hooks
   | recvInline                      -- a request routed to an inline handler
   | inlineReturn (resp : Option Nat) -- the handler returns; `some id` = a response is to be sent
   | inlinePanic
@@ -191,8 +193,11 @@ inductive Act where
   | writerFinish                    -- the signalled writer exits (queue flushed, or drain deadline hit)
   deriving DecidableEq, Repr
 
-/-- The receiver half of the outbound channel is alive. -/
-def chanOpen (s : St) : Bool := s.writer == .running || s.writer == .signalled
+/-- The receiver half of the outbound channel is alive: the writer task owns it once spawned; before
+that it is a local of the connection task (only possible when the spawn does not precede the guard). -/
+def chanOpen (s : St) : Bool :=
+  s.writer == .running || s.writer == .signalled ||
+  (s.writer == .notSpawned && s.accepted && s.phase != .done)
 
 def hasRoom (c : Cfg) (s : St) : Bool := s.queue.length < c.cap
 
@@ -218,14 +223,17 @@ def arm (s : St) : St := { s with guard := .armed }
 /-- Normal exit of the inner block: its locals are dropped, then `shutdown_tx.send(())`. -/
 def exitBlock (c : Cfg) (s : St) : St :=
   let s1 := if c.F.guardInReaderBlock then dropGuard c s else s
-  { s1 with phase := .draining, writer := if s1.writer == .running then .signalled else s1.writer }
+  -- (a writer spawned only after the block starts here, with the shutdown signal already pending)
+  { s1 with phase := .draining,
+            writer := if s1.writer == .running || s1.writer == .notSpawned then .signalled else s1.writer }
 
 /-- Unwind out of the function, or the future dropped: every live local is dropped.  The writer
 either is aborted (`AbortOnDrop`) or merely sees its shutdown sender go away. -/
 def teardown (c : Cfg) (s : St) : St :=
   let s1 := dropGuard c s
   { s1 with phase := .done,
-            writer := if chanOpen s1 then (if c.F.abortOnDrop then .aborted else .signalled) else s1.writer }
+            writer := if s1.writer == .running || s1.writer == .signalled
+                      then (if c.F.abortOnDrop then .aborted else .signalled) else s1.writer }
 
 /-- Normal return of the function (a guard declared at function scope would drop here). -/
 def finish (c : Cfg) (s : St) : St := { dropGuard c s with phase := .done }
@@ -239,7 +247,8 @@ def step (c : Cfg) (s : St) : Act → Option St
   | .handshakeOk =>
     match s.phase with
     | .handshake =>
-      let s1 := { s with phase := .hooks 0, accepted := true, writer := .running }
+      let s1 := { s with phase := .hooks 0, accepted := true,
+                         writer := if c.F.writerBeforeGuard then .running else .notSpawned }
       some (if c.F.guardBeforeHooks then arm s1 else s1)
     | _ => none
   | .hookStart =>
@@ -264,6 +273,11 @@ def step (c : Cfg) (s : St) : Act → Option St
     | .hooks i => if i < c.nConn then none else
         let s1 := if c.F.guardBeforeHooks then s else arm s
         some { s1 with phase := .reading }
+    | _ => none
+  | .earlyResponse id =>
+    match s.phase with
+    | .hooks _ => if c.F.hooksBeforeReader then none
+                  else if chanOpen s && hasRoom c s then some (enqueue s (.response id)) else none
     | _ => none
   | .recvInline =>
     match s.phase with
@@ -330,18 +344,18 @@ def step (c : Cfg) (s : St) : Act → Option St
         else none                                             -- `blocking_send` waits for room
     else none
   | .writerSend =>
-    if chanOpen s then
+    if s.writer == .running || s.writer == .signalled then
       match s.queue with
       | f :: q => some { s with queue := q, wire := s.wire ++ [f] }
       | [] => none
     else none
   | .writerDrop =>
-    if chanOpen s then
+    if s.writer == .running || s.writer == .signalled then
       match s.queue with
       | f :: q => if f.isResponse then none else some { s with queue := q }
       | [] => none
     else none
-  | .writerFail => if chanOpen s then some { s with writer := .finished, queue := [] } else none
+  | .writerFail => if s.writer == .running || s.writer == .signalled then some { s with writer := .finished, queue := [] } else none
   | .writerFinish => if s.writer == .signalled then some { s with writer := .finished, queue := [] } else none
 
 /-- Run a schedule; `none` if some move was not enabled. -/
@@ -357,6 +371,30 @@ def Reachable (c : Cfg) (s : St) : Prop := ∃ as, run c init as = some s
 /-- What `ctx.is_cancelled()` returns to a handler of this connection in state `s`: every
 `CallContext` of the connection wraps a clone of the one connection token. -/
 def seenByHandlers (s : St) : Bool := s.token
+
+/-! ### the handshake's path check (`normalize_path`, `WebSocketPathValidator::on_request`) and what the
+built-in accept loops report through `on_error` -/
+
+/-- `str::trim_end_matches('/')` -/
+def trimSlashes (p : List Char) : List Char := (p.reverse.dropWhile (· == '/')).reverse
+
+/-- `normalize_path`, branch by branch. -/
+def normalizePath (p : List Char) : List Char :=
+  if p = [] ∨ p = ['/'] then ['/']
+  else if p.head? = some '/' then trimSlashes p
+  else '/' :: trimSlashes p
+
+/-- `WebSocketPathValidator::on_request`: the upgrade is accepted iff the request's URI path equals the
+normalised configured path (the request path itself is compared verbatim). -/
+def pathAccepted (configured requested : List Char) : Bool := requested == normalizePath configured
+
+/-- Does `reader_task` return `Err` for this cause? (`accept_and_serve` then reports one
+`ConnectionError::Connection`, unless the writer also failed, in which case it is still one report:
+`reader_result.and(writer_result)` is a single `Result`.) -/
+def Cause.isError : Cause → Bool
+  | .close => false
+  | .eof => false
+  | _ => true
 
 /-! ### expected shapes -/
 
